@@ -33,11 +33,12 @@ var (
 )
 
 type allocCase struct {
-	Name  string
-	Key   string
-	Setup func(ctx *dyntpl.Ctx)
-	Src   string
-	Ast   []*Ast
+	NoReset bool // rendered again and again on the held context without Reset in between
+	Name    string
+	Key     string
+	Setup   func(ctx *dyntpl.Ctx)
+	Src     string
+	Ast     []*Ast
 }
 
 // measure renders src (warm-up twice) and returns allocations per render; -1 when it does not parse.
@@ -260,6 +261,12 @@ func runC19(o *Options) *Result {
 	}
 	for i := 0; i < n; i++ {
 		ic := genInterpCase(i, rng.Fork(), profC19)
+		if ic.tags["switch:incomparable-case"] || ic.tags["mods:failing"] {
+			// a comparison against text that is no number, a modifier that reports an error: the
+			// error values are built by strconv / the modifier (outside the engine), and allocate
+			res.Hist("gen:skipped-error-building-case")
+			continue
+		}
 		key, _, po := parseDump([]byte(ic.vc.Src), false)
 		if po.ErrClass() != "OK" {
 			continue
@@ -313,12 +320,39 @@ func runC19(o *Options) *Result {
 			ctx.SetStatic("smallu", &scaledSmallU)
 		}})
 	}
+	// the same held context rendered repeatedly without Reset: renders that end inside a range loop
+	// (exit) give their loop helpers back too.  (Counting loops are left out: every execution
+	// takes a new counter cell until the next Reset, on the unchanged tree as well.)
+	noReset := map[string]string{
+		"noreset-exit-in-range-loop": `{% for k, h := range user.Finance.History %}{%= k %}:{% if h.Cost < 0 %}{% exit %}{% endif %}{% endfor %}`,
+		"noreset-nested-range-exit":  `{% for _, a := range user.Finance.History %}{% for _, b := range user.Finance.History %}{%= b.DateUnix %}{% exit %}{% endfor %}{% endfor %}`,
+		"noreset-plain":              `{% for _, a := range user.Finance.History sep , %}{%= a.Cost %}{% endfor %}{%= user.Id %}`,
+	}
+	var nrNames []string
+	for k := range noReset {
+		nrNames = append(nrNames, k)
+	}
+	sort.Strings(nrNames)
+	for _, name := range nrNames {
+		tree, err := dyntpl.Parse([]byte(noReset[name]), false)
+		if err != nil {
+			continue
+		}
+		key := "scaled-" + name
+		dyntpl.RegisterTplKey(key, tree)
+		cases = append(cases, allocCase{Name: "scaled/" + name, Key: key, Src: noReset[name], NoReset: true, Setup: func(ctx *dyntpl.Ctx) { ctx.Set("user", benchUser, tobjIns) }})
+	}
 	for _, c := range cases {
 		ctx := dyntpl.NewCtx()
 		var buf bytes.Buffer
-		render := func() error {
-			ctx.Reset()
+		if c.NoReset {
 			c.Setup(ctx)
+		}
+		render := func() error {
+			if !c.NoReset {
+				ctx.Reset()
+				c.Setup(ctx)
+			}
 			buf.Reset()
 			return dyntpl.Write(&buf, c.Key, ctx)
 		}
